@@ -1,31 +1,143 @@
 import RavenModel.Base.Bytes
 import RavenModel.Model.ListMatch
-/-! Line protocol: one op per line (`op arg …`, byte-string args hex encoded, `-` = empty), one canonical line out. -/
+import RavenModel.Model.SeqSet
+import RavenModel.Model.Flags
+import RavenModel.Model.Mail
+/-! Line protocol: one op per line (`op arg …`, byte-string args hex encoded, `-` = empty, `.` = empty list),
+one canonical line out. Stateful ops (`m.*`) act on the driver's mailbox-machine state. -/
 open Raven
 
 def boolS (b : Bool) : String := if b then "true" else "false"
 def hexList (l : List Bytes) : String := if l.isEmpty then "." else " ".intercalate (l.map hexOut)
+def natList (l : List Nat) : String := if l.isEmpty then "." else " ".intercalate (l.map toString)
+def unhexList (l : List String) : List Bytes := (l.filter (· ≠ ".")).map unhex
 
 def opsC18 : List String → Option String
   | ["wmatch", t, p] => some (boolS (ListMatch.matchWildcard (unhex t) (unhex p)))
   | ["wback", t, p] => some (boolS (Wild.wmatch (ListMatch.normInbox (unhex p)) (ListMatch.normInbox (unhex t))))
   | ["canon", r, p] => some (hexOut (ListMatch.canonical (unhex r) (unhex p)))
-  | "filter" :: r :: p :: names => some (hexList (ListMatch.filter ((names.filter (· ≠ ".")).map unhex) (unhex r) (unhex p)))
+  | "filter" :: r :: p :: names => some (hexList (ListMatch.filter (unhexList names) (unhex r) (unhex p)))
   | ["cells", t, p] => some (toString (Wild.cellsWritten (unhex p) (unhex t)))
   | _ => none
 
-def step (line : String) : String :=
-  let args := (line.trimAscii.toString.splitOn " ").filter (· ≠ "")
-  match opsC18 args with
-  | some r => r
-  | none => "bad-op"
+def natArgs (l : List String) : List Nat := (l.filter (· ≠ ".")).filterMap String.toNat?
 
-partial def loop (h : IO.FS.Stream) (out : IO.FS.Stream) : IO Unit := do
+def opsC09 : List String → Option String
+  | ["parseseq", s, n] => some (natList (SeqSet.parseSeq (unhex s) n.toNat!))
+  | "parseuid" :: s :: uids => some (natList (SeqSet.parseUid (unhex s) (natArgs uids)))
+  | ["fetchsetok", s] => some (boolS (SeqSet.fetchSetOk (unhex s)))
+  | _ => none
+
+def modeOfS : String → Option Flags.Mode
+  | "set" => some .set | "add" => some .add | "del" => some .del | _ => none
+
+def opsC10 : List String → Option String
+  | "calc" :: m :: cur :: new =>
+    match modeOfS m with
+    | some mode => some (hexList (Flags.newFlags (GoStr.fields (unhex cur)) (unhexList new) mode))
+    | none => none
+  | ["fields", s] => some (hexList (GoStr.fields (unhex s)))
+  | _ => none
+
+/-! mailbox machine -/
+open Mail in
+def resS : Res → String | .ok => "ok" | .no => "no" | .bad => "bad"
+
+open Mail in
+def noteS : Note → String
+  | .fetch r u fl => s!"F:{r}:{u}:{",".intercalate (fl.map hexOut)}"
+  | .expunge r => s!"X:{r}"
+
+open Mail in
+def dumpBox (b : Mbox) : String :=
+  let ls := b.links.map (fun l => s!"{l.uid}:{l.msg}:{",".intercalate (l.flags.map hexOut)}")
+  s!"box {hexOut b.name} inc={b.inc} next={b.uidNext} [{";".intercalate ls}]"
+
+open Mail in
+def dumpStore (s : Store) : String :=
+  " | ".intercalate (s.boxes.map dumpBox) ++ " | subs " ++ hexList s.subs
+
+open Mail in
+def seqRanks (s : Store) (box : Bytes) (set : Bytes) : List Nat :=
+  match s.find box with
+  | none => []
+  | some b => SeqSet.parseSeq set b.links.length
+
+open Mail in
+def uidList (s : Store) (box : Bytes) (set : Bytes) : List Nat :=
+  match s.find box with
+  | none => []
+  | some b => SeqSet.parseUid set (b.links.map (·.uid))
+
+open Mail in
+def opsMail (s : Store) : List String → Option (Store × String)
+  | ["m.init", now] => some (Store.init now.toNat!, "ok")
+  | "m.add" :: box :: msg :: flags =>
+    let (s', r) := s.add (unhex box) msg.toNat! (unhexList flags)
+    some (s', match r with | some u => s!"ok {u}" | none => "no")
+  | ["m.copy", src, set, dst] =>
+    let (s', r) := s.copy (unhex src) (seqRanks s (unhex src) (unhex set)) (unhex dst)
+    some (s', resS r)
+  | ["m.uidcopy", src, set, dst] =>
+    let (s', r) := s.uidCopy (unhex src) (uidList s (unhex src) (unhex set)) (unhex dst)
+    some (s', resS r)
+  | "m.store" :: box :: set :: m :: flags =>
+    match modeOfS m with
+    | none => none
+    | some mode =>
+      let ranks := seqRanks s (unhex box) (unhex set)
+      if ranks.isEmpty then some (s, "bad")
+      else
+        let (s', ns) := s.storeSeq (unhex box) (unhexList flags) mode ranks
+        some (s', "ok " ++ " ".intercalate (ns.map noteS))
+  | "m.uidstore" :: box :: set :: m :: flags =>
+    match modeOfS m with
+    | none => none
+    | some mode =>
+      let (s', ns) := s.storeUid (unhex box) (unhexList flags) mode (uidList s (unhex box) (unhex set))
+      some (s', "ok " ++ " ".intercalate (ns.map noteS))
+  | ["m.expunge", box] => let (s', ns) := s.expunge (unhex box); some (s', "ok " ++ natList ns)
+  | ["m.uidexpunge", box, set] =>
+    let (s', ns) := s.uidExpunge (unhex box) (uidList s (unhex box) (unhex set)); some (s', "ok " ++ natList ns)
+  | ["m.close", box] => let (s', _) := s.expunge (unhex box); some (s', "ok")
+  | ["m.create", a, now] => let (s', r) := s.create (unhex a) now.toNat!; some (s', resS r)
+  | ["m.delete", a] => let (s', r) := s.delete (unhex a); some (s', resS r)
+  | ["m.rename", a, b, now] => let (s', r) := s.rename (unhex a) (unhex b) now.toNat!; some (s', resS r)
+  | ["m.sub", a] => let (s', r) := s.subscribe (unhex a); some (s', resS r)
+  | ["m.unsub", a] => let (s', r) := s.unsubscribe (unhex a); some (s', resS r)
+  | ["m.dump"] => some (s, dumpStore s)
+  | ["m.lsub"] => some (s, hexList s.shownSubs)
+  | ["m.log"] => some (s, " ".intercalate (s.log.reverse.map (fun e => s!"{e.inc}:{hexOut e.name}:{e.uid}:{e.msg}")))
+  | _ => none
+
+/-- selected-state commands need an existing mailbox: SELECT fails otherwise and the command is answered NO -/
+def needsBox : List String → Option String
+  | op :: box :: _ =>
+    if op ∈ ["m.copy", "m.uidcopy", "m.store", "m.uidstore", "m.expunge", "m.uidexpunge", "m.close"] then some box else none
+  | _ => none
+
+def step (st : Mail.Store) (line : String) : Mail.Store × String :=
+  let args := (line.trimAscii.toString.splitOn " ").filter (· ≠ "")
+  match needsBox args with
+  | some box => if !st.has (unhex box) then (st, "no") else
+    match opsMail st args with
+    | some r => r
+    | none => (st, "bad-op")
+  | none =>
+  match opsMail st args with
+  | some r => r
+  | none =>
+    match (opsC18 args <|> opsC09 args <|> opsC10 args) with
+    | some r => (st, r)
+    | none => (st, "bad-op")
+
+partial def loop (h : IO.FS.Stream) (out : IO.FS.Stream) (st : Mail.Store) : IO Unit := do
   let line ← h.getLine
   if line.isEmpty then return ()
-  out.putStrLn (step line)
+  let (st', r) := step st line
+  out.putStrLn r
   out.flush
-  loop h out
+  loop h out st'
 
 def main : IO Unit := do
-  loop (← IO.getStdin) (← IO.getStdout)
+  loop (← IO.getStdin) (← IO.getStdout) (Mail.Store.init 0)
